@@ -158,6 +158,14 @@ class C14(Prop):
         except X.TieBroken:
             pass
 
+        # fixed-size local buffers of the output functions (none in this tree: add_vmessage formats with vasprintf)
+        self.buf_sizes = []
+        for fn, name, expr in T.local_buffers(src):
+            try:
+                self.buf_sizes.append(X.probe_values(bdir, [("v", expr)], self.const_headers, self.const_prelude)["v"])
+            except X.TieBroken:
+                pass
+
         def errno_value(name):
             try:
                 return X.probe_values(bdir, [("v", name)], self.const_headers, self.const_prelude)["v"]
@@ -325,6 +333,18 @@ class C14(Prop):
         mk("peerfin-serves-others", ["@2 sendres W", "@2 " + w(b"pending\n"), "@2 flush", "@1 peerfin", "@2 dump"])
         mk("peerclose-serves-others", ["@2 sendres W", "@2 " + w(b"pending\n"), "@2 flush", "sendres W", w(b"mine\n"),
                                        "sendres 2,P", "@1 peerclose", "@2 dump"])
+        # add_vmessage formatting step: lengths around every power of two, the ring size, the longest printable string and
+        # every fixed-size local buffer the translator finds in the output functions (vreq = text requested, wbeg = text formatted)
+        sweep = set()
+        for base in [1 << k for k in range(0, 14)] + [N, 2 * N, 8192] + list(getattr(self, "buf_sizes", [])):
+            for d in (-1, 0, 1):
+                if 0 <= base + d <= 4 * N:
+                    sweep.add(base + d)
+        for ln in sorted(sweep):
+            mk("vfmt-%d" % ln, [vw(filler(ln, ln % 89))])
+        for ln in sorted(x for x in sweep if 2 <= x <= 2 * N and (x & (x - 1)) == 0 or x in getattr(self, "buf_sizes", [])):
+            mk("vfmt2-%d" % ln, ["vwrite2 %s %s" % (hx(filler(ln // 3, 5)), hx(filler(ln - ln // 3, 9))),
+                                 "vwrite2 - %s" % hx(filler(ln - 1, 3) + LF)])
         # (A) short newline-free texts (prompts, telnet sequences) straddling the physical end of the ring
         for r in (N - 1, N - 2, N - 5, N - 30):
             for ln in (2, 6, 40):
@@ -516,9 +536,17 @@ class C14(Prop):
                 k = "close"     # the console has no peer socket
             if k in ("write", "vwrite"):
                 ln = self.gen_len(rng)
+                if k == "vwrite" and rng.chance(1, 3):
+                    # formatted lengths at a power of two (or a local buffer size of the output code) +-1
+                    ln = max(0, rng.choice([1 << rng.range(4, 13)] + list(getattr(self, "buf_sizes", []))) + rng.range(-1, 1))
                 if nusers > 1 and ln > N:
                     ln = rng.choice([ln, rng.range(0, 200)])      # keep multi-user cases small enough for the quick tier
-                body.append("%s%s %s" % (at, k, hx(self.gen_msg(rng, ln))))
+                msg = self.gen_msg(rng, ln)
+                if k == "vwrite" and ln >= 2 and rng.chance(1, 4):
+                    cut = rng.range(0, ln)
+                    body.append("%svwrite2 %s %s" % (at, hx(msg[:cut]), hx(msg[cut:])))
+                else:
+                    body.append("%s%s %s" % (at, k, hx(msg)))
             elif k == "sendres":
                 body.append(at + "sendres " + ",".join(self.gen_tok(rng, offset if u == 1 else 0) for _ in range(rng.range(1, 6))))
             elif k in ("close", "peerfin", "peerclose"):
